@@ -738,3 +738,37 @@ func init() {
 		Stubs:  append(append([]string{}, stubCrypto...), stubErrors...),
 	})
 }
+
+func init() {
+	cv := int(SolverCVC5) + 1
+	register(&PropSpec{
+		ID:   "C17",
+		Pkgs: []string{"backend"},
+		Items: func(tier string, seed int64) []Item {
+			var it []Item
+			// Frequency: the whole range 0..2^32 Hz in one query (bit-precise FP first; the proof is completed in the
+			// real rounding-error model when the bit-precise query times out), plus one bit-precise window
+			it = append(it, Item{PkgKey: "backend", Func: "VerifC17_Frequency", Shape: []int{-1}, Solver: cv})
+			it = append(it, Item{PkgKey: "backend", Func: "VerifC17_Percentage", Shape: []int{100}, Solver: cv})
+			it = append(it, Item{PkgKey: "backend", Func: "VerifC17_Percentage", Shape: []int{pick(tier, []int{1000}, []int{1000000})[0]}, Solver: cv})
+			for _, n := range pick(tier, []int{0, 1, 2, 8, 16}, rng(0, 24)) {
+				it = append(it, Item{PkgKey: "backend", Func: "VerifC17_HEXBytes", Shape: []int{n, 0}}, Item{PkgKey: "backend", Func: "VerifC17_HEXBytes", Shape: []int{n, 1}})
+			}
+			for _, l := range []int{16, 24, 32} {
+				it = append(it, Item{PkgKey: "backend", Func: "VerifC17_Envelope", Shape: []int{l}})
+				it = append(it, Item{PkgKey: "backend", Func: "VerifC17_UnwrapIff", Shape: []int{l}})
+			}
+			it = append(it, Item{PkgKey: "backend", Func: "VerifC17_EnvelopeClear", Shape: []int{0}}, Item{PkgKey: "backend", Func: "VerifC17_EnvelopeClear", Shape: []int{1}})
+			for _, n := range []int{0, 1, 7, 8, 15, 16, 17, 23, 24, 25, 32, 40} {
+				it = append(it, Item{PkgKey: "backend", Func: "VerifC17_UnwrapAnyLength", Shape: []int{n}})
+			}
+			for _, n := range []int{0, 1, 2, 3, 4, 5, 8} {
+				it = append(it, Item{PkgKey: "backend", Func: "VerifC17_HEXAnyText", Shape: []int{n}})
+			}
+			return it
+		},
+		Bounds: func(tier string) map[string]string { return map[string]string{} },
+		Stubs: append(append([]string{"encoding/json.Marshal(float64) + strconv.ParseFloat: documented round-trip contract (shortest decimal parses back to the same float64)", "go-aes-key-wrap executed from source over the AES uninterpreted functions"}, stubCrypto...), stubErrors...),
+		Outside: []string{"the 20 payload structs through encoding/json (reflection), ISO8601Time (time.Format/Parse), omitempty behaviour"},
+	})
+}
